@@ -2,6 +2,9 @@
 from pyvc.values import Obj, FuncVal, PyExc, Unsupported
 
 
+_uid = [0]
+
+
 def codon_new(interp, cls, args, kwargs):
     """Codon.__new__: singleton per upper-cased string (the real __new__ does exactly this with a class dict);
     __init__ then runs on the instance, as CPython does after __new__."""
